@@ -390,6 +390,43 @@ def scn_full(ctx):
         if d:
             raise Violation("c14.history_dependent", f"after a run of another configuration in the same process ({len(changed)} real-valued settings a few per cent off) the results differ from the same seeded run made first: {d}", sig="compute:after-other-config")
 
+    # ---- the ORDER in which configurations are run in a process must not matter: a family of
+    # configurations (a base with every real-valued setting off the default, and variants that
+    # differ from it in ONE setting — a parameter scan) is run in one order in one process and in
+    # the reverse order in another; each configuration's table must be the same in both.  (The
+    # default configuration cannot serve as the base: the warm-up run has been through the process.)
+    if rows > 0 and ch.draw(20, "configuration_scan_in_two_orders") == 19:
+        from .. import core
+
+        base, names = _perturbed(cfg)
+        k0 = ch.draw(max(1, len(names)), "scan_first_setting")
+        scan = [names[(k0 + 4 * j) % len(names)] for j in range(min(5, len(names)))] if names else []
+        fam = [("base", base)] + [(nm, _perturbed(base, 1.05, pick=lambda x, nm=nm: x == nm)[0]) for nm in scan]
+
+        def series(order):
+            outl = {}
+            for nm, c in order:
+                stx, Rx, _ = run_compute(c, s + 3, T0)
+                outl[nm] = ("ok", canon(Rx)) if stx == "ok" else ("exc", type(Rx).__name__)
+            return outl
+
+        ctx.probes["configuration_scan_in_two_orders"] += 1
+        pairs = []
+        for var in fam[1:]:
+            # pairwise, each pair in its own two processes: a third configuration run in between
+            # would refresh whatever the first one left behind
+            fwd = core.in_fork(series, [fam[0], var])
+            rev = core.in_fork(series, [var, fam[0]])
+            pairs += [(nm, fwd[nm], rev[nm]) for nm in fwd]
+        ctx.log(f"scan base+{scan} outcomes={[(nm, a_[0], b_[0]) for nm, a_, b_ in pairs]}")
+        for nm, a_, b_ in pairs:
+            if a_[0] != b_[0]:
+                raise Violation("c14.history_dependent", f"parameter scan (base + one setting changed at a time: {scan}): configuration '{nm}' {'raises ' + str(a_[1]) if a_[0] == 'exc' else 'returns'} when the scan runs forward and {'raises ' + str(b_[1]) if b_[0] == 'exc' else 'returns'} when it runs in reverse order", sig="compute:scan-order")
+            if a_[0] == "ok":
+                d = _diff(a_[1], b_[1])
+                if d:
+                    raise Violation("c14.history_dependent", f"parameter scan (base + one setting changed at a time: {scan}): the seeded run of configuration '{nm}' gives different results when the scan runs forward and in reverse order in a process: {d}", sig="compute:scan-order")
+
     # ---- (c) channel isolation ----------------------------------------------------------------
     if opt and rad and rows > 0:
         for (o, r, nm) in ((True, False, "radio off"), (False, True, "optical off")):
